@@ -109,6 +109,7 @@ type stState struct {
 	PolAcc        string                 `json:"polAcc"`
 	FeeAcc        string                 `json:"feeAcc"`
 	Blocked       []string               `json:"blocked"`
+	Canon         []Pair                 `json:"canon"`
 }
 
 func formJ(prover string, merkle []byte, owner string, start int64, atts []*sttypes.Attestation) map[string]interface{} {
@@ -121,6 +122,14 @@ func formJ(prover string, merkle []byte, owner string, start int64, atts []*stty
 
 // storageAbs reads every storage store raw. bad collects keys that are not of the expected shape.
 func (c *Chain) storageAbs(users []string) (stState, []string) {
+	canon := []Pair{} // the chain's canonicalisation of every spelling of a user address the generator sends
+	for _, u := range users {
+		for _, sp := range []string{u, strings.ToUpper(u)} {
+			if a, err := sdk.AccAddressFromBech32(sp); err == nil {
+				canon = append(canon, Pair{sp, a.String()})
+			}
+		}
+	}
 	users = append(append([]string{}, users...), seenGaugeAccs...)
 	cdc := c.A.AppCodec()
 	bad := []string{}
@@ -216,6 +225,7 @@ func (c *Chain) storageAbs(users []string) (stState, []string) {
 		st.Bank = append(st.Bank, Pair{[]string{stakersAcc, coin.Denom}, Num(coin.Amount)})
 	}
 	st.Blocked = c.BlockedAddrs()
+	st.Canon = canon
 	return st, bad
 }
 
@@ -513,8 +523,12 @@ func (g *storageGen) next() (sdk.Msg, map[string]interface{}, func(pre, post stS
 				item, hl = df.proof(o)
 			case mode < 80: // right path, wrong item
 				item = append([]byte{0x23}, item...)
-			case mode < 84: // wrong ToProve
+			case mode < 82: // wrong ToProve
 				toProve = challenge + 1
+			case mode < 84: // a genuine proof of another chunk, announced as such (ToProve names that chunk)
+				o := r.Intn(len(df.chunks))
+				item, hl = df.proof(o)
+				toProve = int64(o)
 			case mode < 88: // truncated json
 				hl = hl[:len(hl)/2]
 			case mode < 92: // item of another chunk with this path
@@ -545,6 +559,11 @@ func (g *storageGen) next() (sdk.Msg, map[string]interface{}, func(pre, post stS
 		}
 	case k < m.buy+m.post+m.del+m.proof+m.prov:
 		creator := g.user()
+		if m.name != "forms" && r.Intn(5) == 0 {
+			// provider and collateral records are keyed by the signer string as sent: the upper-case
+			// spelling of an address is a second registration of the same account
+			creator = strings.ToUpper(creator)
+		}
 		if _, found := c.A.StorageKeeper.GetProviders(c.Ctx(), creator); found && r.Intn(map[bool]int{true: 9, false: 3}[m.name == "forms"]) == 0 {
 			return &sttypes.MsgShutdownProvider{Creator: creator}, map[string]interface{}{"shutdownProvider": map[string]interface{}{"creator": creator}}, nil
 		}
@@ -680,6 +699,20 @@ func runStorage(profile string, seed int64, histories, steps int, out *Emitter) 
 				dt := []time.Duration{6 * time.Second, 6 * time.Second, time.Hour, 24 * time.Hour, 10 * 24 * time.Hour, 40 * 24 * time.Hour, 400 * 24 * time.Hour}[r.Intn(7)]
 				if r.Intn(3) > 0 {
 					dt = 6 * time.Second
+				}
+				if r.Intn(3) == 0 { // real block times are not whole seconds apart
+					dt += time.Duration(r.Intn(1000)) * time.Millisecond
+				}
+				if r.Intn(8) == 0 { // the next block lands right at / just after the end of some gauge
+					gs := c.A.StorageKeeper.GetAllPaymentGauges(c.Ctx())
+					if len(gs) > 0 {
+						if d := gs[r.Intn(len(gs))].End.Sub(c.T); d > 0 && d < 500*24*time.Hour {
+							dt = d + []time.Duration{0, time.Microsecond, 300 * time.Millisecond, 999 * time.Millisecond, -time.Microsecond, 2 * time.Second}[r.Intn(6)]
+							if dt <= 0 {
+								dt = time.Microsecond
+							}
+						}
+					}
 				}
 				if c.InBlk {
 					if p, _ := c.End(); p != nil {
